@@ -2,7 +2,7 @@
    owner.  Only statements, [exact], and [Print Assumptions]. *)
 From Coq Require Import String.
 From Martian Require Import Lib.Bytes Extracted.Journal K.ForkName K.Journal
-  Proofs.ForkName Proofs.Journal Proofs.JournalParse.
+  Proofs.ForkName Proofs.Journal Proofs.JournalParse K.Attempt Proofs.Attempt.
 
 (* Distinct map keys have distinct safe (percent-encoded) forms: all keys,
    any bytes. *)
@@ -84,6 +84,25 @@ Theorem C11_stale_uniquifier_ignored : forall cur seen,
 Proof. exact uniq_accepts_iff. Qed.
 Print Assumptions C11_stale_uniquifier_ignored.
 
+(* Attempt lifecycle of a job (start, reset, notifications by the process of
+   any attempt - stragglers included -, journal reads; histories of any
+   length): every notification mrp has recorded was written by the process
+   of the current attempt, and no two attempts share a uniquifier (directory
+   suffix and journal prefix). *)
+Theorem C11_attempt_attribution_exact : forall ops k f,
+  In (k, f) (s_contents (arun false ops)) -> S k = length (s_atts (arun false ops)).
+Proof. exact attempt_attribution_exact_lemma. Qed.
+Print Assumptions C11_attempt_attribution_exact.
+
+Theorem C11_attempt_uniquifiers_distinct : forall ops, NoDup (s_atts (arun false ops)).
+Proof. exact attempt_uniquifiers_distinct_lemma. Qed.
+Print Assumptions C11_attempt_uniquifiers_distinct.
+
+(* A reset that keeps the old uniquifier breaks it. *)
+Theorem C11_attempt_reuse_refuted : exists ops k f,
+  In (k, f) (s_contents (arun true ops)) /\ S k <> length (s_atts (arun true ops)).
+Proof. exact attempt_reuse_refuted. Qed.
+
 (* The source still has the pattern, prefixes and file names modelled. *)
 Theorem C11_constants_as_modelled :
   job_journal_re = job_journal_re_expected /\
@@ -163,3 +182,13 @@ Proof.
   cbv zeta. split; [reflexivity|]. split; [right; split; reflexivity|].
   split; [reflexivity|]. vm_compute. repeat split.
 Qed.
+
+(* a straggler of attempt 0 reports complete after the reset; the process of
+   attempt 1 reports progress: only the latter is recorded *)
+Example C11_attempt_nonvacuous :
+  let ops := [OStart; OWrite 0%nat (bs "log"); ORefresh; OReset; OStart;
+              OWrite 0%nat (bs "complete"); OWrite 1%nat (bs "progress"); ORefresh] in
+  s_contents (arun false ops) = [(1%nat, bs "progress")] /\
+  length (s_atts (arun false ops)) = 2%nat /\
+  s_contents (arun true ops) = [(0%nat, bs "complete"); (1%nat, bs "progress")].
+Proof. vm_compute. repeat split. Qed.
